@@ -69,6 +69,12 @@ proof fn lemma_fold_validate(codes: Seq<i32>)
     }
 }
 
+// test: what C06 states about folding two codes from {0, 1, 7}
+pub open spec fn test_fold_ok(acc: i32, code: i32, res: i32) -> bool {
+    &&& (res == 0 || res == 1 || res == 7)
+    &&& ((res == 0) == (acc == 0 && code == 0))
+    &&& (acc != 1 && code != 1 && (acc == 7 || code == 7) ==> res == 7)
+}
 // validate, one step of the fold over the rules files (C06): acc = exit code so far, st = code of this rules file
 // (0 = parsed and nothing failed, 5 = did not parse, 19 = some evaluation FAILed). From the statement: a rules file that
 // is fine never changes the verdict so far; one that is not makes the run non-zero; no code is invented.
